@@ -140,38 +140,48 @@ def docstring_violations(sol, robjs):
     return bad
 
 
-def py_brute(prob, cap=200000):
+def py_brute(prob, cap=2500):
     """All valid solutions up to reordering of the AllocatedPacks (silent tracks indistinguishable), as a set of
-    canonical texts; None if more than `cap` candidate assignments would be needed. Packs without channels are
-    not used (excluded point)."""
+    canonical texts; None if more than `cap` search nodes would be needed (such problems are skipped by the
+    generators: the number of solutions explodes). Packs without channels are not used (excluded point)."""
     packs, tracks, refs, ns = prob
     N = len(tracks) + ns
     sizes = [len(ch) for _r, ch in packs]
     results = set()
     budget = [cap]
 
+    need = None if refs is None else Counter(refs)
+
     def multisets(start, left, chosen):
+        # multisets of packs whose channel counts add up to the number of tracks; with pack_refs only packs whose
+        # root still has an unmatched reference
         if left == 0:
-            yield list(chosen)
+            if need is None or not +need:
+                yield list(chosen)
             return
         for i in range(start, len(packs)):
-            if 0 < sizes[i] <= left:
+            if 0 < sizes[i] <= left and (need is None or need[packs[i][0]] > 0):
                 chosen.append(i)
+                if need is not None:
+                    need[packs[i][0]] -= 1
                 for m in multisets(i, left - sizes[i], chosen):
                     yield m
+                if need is not None:
+                    need[packs[i][0]] += 1
                 chosen.pop()
 
     for chosen in multisets(0, N, []):
-        if refs is not None and Counter(packs[i][0] for i in chosen) != Counter(refs):
-            continue
+        budget[0] -= 1
+        if budget[0] <= 0:
+            return None
         slots = [(k, ci) for k, i in enumerate(chosen) for ci in range(sizes[i])]
         assign = {}
 
         def place(ti):
+            budget[0] -= 1
             if budget[0] <= 0:
                 raise OverflowError
             if ti == len(tracks):
-                budget[0] -= 1
                 per = []
                 for k, i in enumerate(chosen):
                     per.append("%d:%s" % (i, ",".join(str(assign[(k, ci)]) if (k, ci) in assign else "s"
@@ -455,9 +465,14 @@ def random_adm_desc(rng):
                 walk(j, path + [i])
 
         walk(root, [])
-        rng.shuffle(tracks)
-        tracks = tracks[:5]
         refs = [root]
+        if rng.random() < 0.35:
+            # a second referenced pack (possibly a sub-pack of the first: nested alternative)
+            root2 = rng.randrange(npacks)
+            walk(root2, [])
+            refs.append(root2)
+        rng.shuffle(tracks)
+        tracks = tracks[:6]
         if rng.random() < 0.2 and tracks:
             tracks[rng.randrange(len(tracks))] = (rng.randrange(ncf), rng.randrange(npacks))
     else:
@@ -530,14 +545,19 @@ def model_select_text(prob, ans):
 # the checks on one batch of problems (runs in worker processes in the thorough tier)
 
 
-def shape_key(prob, nsol):
+def shape_keys(prob, nsol):
     packs, tracks, refs, ns = prob
     nested = any(len(pfs) > 1 for _r, ch in packs for _c, pfs in ch)
     roots = [r for r, _ in packs]
-    return "packs=%d maxch=%d tracks=%d silent=%d refs=%s nested=%d reproot=%d sols=%s" % (
-        len(packs), max([len(ch) for _r, ch in packs] or [0]), len(tracks), ns,
-        "none" if refs is None else "yes", int(nested), int(len(set(roots)) < len(roots)),
-        "0" if nsol == 0 else "1" if nsol == 1 else "2+")
+    sols = "0" if nsol == 0 else "1" if nsol == 1 else "2+"
+    return [
+        "packs=%d" % len(packs), "tracks=%d" % len(tracks), "silent=%d" % ns,
+        "max-channels-per-pack=%d" % max([len(ch) for _r, ch in packs] or [0]),
+        "solutions=%s" % (nsol if nsol < 5 else "5+"),
+        "shape: sols=%s refs=%s silent=%s nested-alternatives=%d repeated-root=%d" % (
+            sols, "none" if refs is None else "given", "0" if ns == 0 else "1+", int(nested),
+            int(len(set(roots)) < len(roots))),
+    ]
 
 
 def predicate(prob, sols, robjs, brute):
@@ -569,6 +589,10 @@ def run_batch(args):
     """args = (problems, with_lean, lean_dir_unused). Returns dict(counts, disagreements, hits, samples, n)."""
     probs, with_lean = args
     counts, dis, hits, cases = Counter(), [], [], []
+    brutes = [py_brute(p) for p in probs]
+    counts["skipped: solution count explodes (brute-force budget)"] += sum(1 for b in brutes if b is None)
+    probs = [p for p, b in zip(probs, brutes) if b is not None]
+    brutes = [b for b in brutes if b is not None]
     lean_alloc = lean_brute = None
     if with_lean:
         drv = Driver("c07driver", "Earverif.Driver.C07")
@@ -585,9 +609,10 @@ def run_batch(args):
             sols, robjs, err = [], build_real(prob), "%s: %s" % (type(e).__name__, e)
         rp, rt = robjs[0], robjs[1]
         wf = is_wf(prob)
-        brute = py_brute(prob) if wf else None
+        brute = brutes[k] if wf else None
         real_pos = [show_real_solution(s, rp, rt, True) for s in sols]
-        counts[shape_key(prob, len(sols))] += 1
+        for key in shape_keys(prob, len(sols)):
+            counts[key] += 1
         counts["wf" if wf else "not-wf(excluded point)"] += 1
         ok = True
         if err is not None:
@@ -624,7 +649,10 @@ class C07(Spec):
     lean_targets = ("Earverif.Props.C07", "c07driver")
     props_module = "Earverif.Props.C07"
     theorems = tuple("Earverif.PackAlloc." + t for t in (
-        "alloc_sound", "allocImpl_fuel_sufficient", "allocObvious_eq",
+        "alloc_sound", "alloc_complete", "alloc_incomplete_without_WF",
+        "allocImpl_fuel_sufficient", "allocImpl_cons_eq",
+        "select_accepted_valid", "select_conflicting_iff", "select_ambiguous_iff",
+        "select_conflicting_iff_none_valid", "select_accepted_unique", "accept_iff_unique_partial",
     ))
     trusted_base = (
         "model Earverif/Model/PackAlloc.lean is a hand transliteration of pack_allocation.allocate_packs, "
@@ -663,7 +691,15 @@ class C07(Spec):
         for what, prob, detail, tags in res["hits"]:
             ctx.hit(what, prob_json(prob), detail, tags)
 
-    def _run(self, ctx, probs, stream, with_lean=True, chunk=4000):
+    def _run(self, ctx, probs, stream, with_lean=True, chunk=2000):
+        import time
+        t0 = time.time()
+        try:
+            return self._run1(ctx, probs, stream, with_lean, chunk)
+        finally:
+            ctx.notes.append("stream %s: %d problems in %.1fs" % (stream, len(probs), time.time() - t0))
+
+    def _run1(self, ctx, probs, stream, with_lean, chunk):
         chunks = [probs[i:i + chunk] for i in range(0, len(probs), chunk)]
         if ctx.quick or len(chunks) < 2:
             for c in chunks:
@@ -681,24 +717,39 @@ class C07(Spec):
         else:
             exh = list(small_universe(2, 2, 2, 2, 3, 2, 2))
         self._run(ctx, exh, "exhaustive-small-universe")
-        n_small = 4000 if ctx.quick else 150000
+        n_small = 4000 if ctx.quick else 80000
         self._run(ctx, [random_small(rng) for _ in range(n_small)], "uniform-larger-bound")
-        n_seed = 3000 if ctx.quick else 120000
+        n_seed = 3000 if ctx.quick else 60000
         self._run(ctx, [seeded_problem(rng) for _ in range(n_seed)], "solution-seeded")
-        n_exc = 500 if ctx.quick else 10000
+        n_exc = 500 if ctx.quick else 5000
         exc = [excluded_problem(rng) for _ in range(n_exc)]
         for _p, kind in exc:
             ctx.count("excluded-kind:" + kind)
         self._run(ctx, [p for p, _ in exc], "excluded-points")
         self._excluded_record(ctx, [p for p, _ in exc])
-        self._select(ctx, 1500 if ctx.quick else 40000)
+        self._valid_crosscheck(ctx, [p for p, _ in exc][:300] + [seeded_problem(rng) for _ in range(300)])
+        self._select(ctx, 1500 if ctx.quick else 12000)
+
+    def _valid_crosscheck(self, ctx, probs):
+        """Lean `decide (Valid prob sol)` on every model solution and Lean `decide (WF prob)` vs the harness's own
+        docstring check / is_wf (ties the Lean predicates to the Python ones)"""
+        probs = [p for p in probs if py_brute(p) is not None]
+        outs = Driver("c07driver", "Earverif.Driver.C07").run(["valid|" + encode(p) for p in probs])
+        for prob, ans in zip(probs, outs):
+            sols, robjs = run_real(prob)
+            want = "".join("0" if docstring_violations(s, robjs) else "1" for s in sols) + (" wf=1" if is_wf(prob) else " wf=0")
+            ctx.count("valid/WF predicate cross-check")
+            if ans != want:
+                ctx.disagree("Lean Valid/WF vs Python docstring check/is_wf", prob_json(prob), ans, want)
+            else:
+                ctx.validated()
 
     def _excluded_record(self, ctx, probs):
         """what the real code does outside WF, recorded (never a failure): compare with the docstring brute force"""
         for prob in probs:
             if is_wf(prob):
                 continue
-            brute = py_brute(prob, cap=20000)
+            brute = py_brute(prob)
             if brute is None:
                 continue
             sols, robjs = run_real(prob, limit=2000)
@@ -714,6 +765,14 @@ class C07(Spec):
                 ctx.count("excluded: real output repeats solutions")
 
     def _select(self, ctx, n):
+        import time
+        t0 = time.time()
+        try:
+            return self._select1(ctx, n)
+        finally:
+            ctx.notes.append("select_pack_mapping cases: %d in %.1fs" % (n, time.time() - t0))
+
+    def _select1(self, ctx, n):
         drv = Driver("c07driver", "Earverif.Driver.C07")
         descs = [random_adm_desc(ctx.rng) for _ in range(n)]
         real = [select_case(d) for d in descs]
@@ -740,7 +799,7 @@ class C07(Spec):
     # ---- direct predicate search (real code + Python brute force only)
     def search(self, ctx, deep):
         rng = random.Random("C07-search/%s/%d" % (ctx.tier, ctx.seed))
-        n = 2000 if not deep else (20000 if ctx.quick else 200000)
+        n = 2000 if not deep else (12000 if ctx.quick else 80000)
         probs = [seeded_problem(rng) if i % 3 else random_small(rng) for i in range(n)]
         self._run(ctx, probs, "search", with_lean=False)
 
@@ -748,14 +807,24 @@ class C07(Spec):
 SPEC = C07()
 
 REGISTRY = dict(
-    text="PARTIAL: Lean theorem Earverif.PackAlloc.alloc_sound proves for every allocation problem that each solution "
-    "yielded by the model of allocate_packs satisfies every bullet point of its docstring (Valid); "
-    "allocImpl_fuel_sufficient proves the recursion bound used by the model is enough. The model is tied to the code "
-    "on every run (same solutions in the same order; ADM-level accepted/Conflicting/Ambiguous outcome). Completeness "
-    "and absence of duplicates are not proved in Lean: they are searched by comparing the real output with a Lean "
-    "brute-force enumerator of Valid and with an independent Python brute force.",
-    note="Trusted: Lean kernel, hand transliteration + correspondence harness, rendering of the docstring as Valid. "
-    "Quantifier limits: packs with >= 1 channel and distinct channel formats per pack for completeness/no-duplicates.",
-    technique="Lean 4 invariant proof over the recursive search + differential correspondence with allocate_packs + brute-force spec",
+    text="PARTIAL: Lean theorems about the model of allocate_packs (Earverif.PackAlloc): alloc_sound - every yielded "
+    "allocation satisfies every bullet point of the docstring (all problems); alloc_complete - for well-formed problems "
+    "(packs with >= 1 channel, channel formats distinct within a pack) every allocation satisfying the docstring is "
+    "yielded up to the order of the AllocatedPacks, i.e. the pruning tests, the 'obvious' step and the silent-track "
+    "rules lose nothing; alloc_incomplete_without_WF - the excluded point really loses a solution; "
+    "allocImpl_fuel_sufficient - the recursion bound of the model is enough; select_conflicting_iff_none_valid, "
+    "select_accepted_unique, accept_iff_unique_partial - select_pack_mapping says Conflicting exactly when no "
+    "allocation is permitted, accepts only when all permitted allocations are equivalent, and never accepts when two "
+    "inequivalent ones exist. NOT proved: alloc_nodup (no two yielded allocations are equivalent) and hence "
+    "'Ambiguous implies two inequivalent permitted allocations'; this gap is searched: the real output is compared "
+    "as a multiset with a Lean brute-force enumerator of Valid and with an independent Python brute force "
+    "(exhaustive small universe + random + solution-seeded problems). The model is tied to the code on every run "
+    "(same solutions in the same yield order; ADM-level accepted/Conflicting/Ambiguous outcome).",
+    note="Trusted: Lean kernel, hand transliteration + correspondence harness, rendering of the docstring as Valid "
+    "(cross-checked against the Python brute force). Quantifier limits: packs with >= 1 channel and distinct channel "
+    "formats per pack for completeness/no-duplicates (what validate_structure guarantees); at the excluded point the "
+    "real code reports an ambiguity as unique (recorded, not alarmed).",
+    technique="Lean 4 invariant proofs over the recursive search (soundness: accounting invariant; completeness: "
+    "target-following invariant) + differential correspondence with allocate_packs + brute-force spec enumerators",
     design_ref="DESIGN.md section 4, C07",
 )
